@@ -40,9 +40,11 @@ Definition opt_N_eqb (a b : option N) : bool :=
 Definition memN (x : N) (l : list N) : bool := existsb (N.eqb x) l.
 
 (* same opcode / outputs; operands equal except that a label may stand for any label (checked per edge) *)
+(* the condition of a jnz is not a label (labels are renamed by the passes, their value as data is not preserved) *)
+Definition jnz_cond_ok (ib : inst) : bool :=
+  if String.eqb (i_op ib) "jnz" then match i_args ib with OLab _ :: _ => false | _ => true end else true.
 Definition jump_shape (ib ia : inst) : bool :=
-  String.eqb (i_op ib) (i_op ia) &&
-  (if String.eqb (i_op ib) "jnz" then match i_args ib with OLab _ :: _ => false | _ => true end else true) &&
+  String.eqb (i_op ib) (i_op ia) && jnz_cond_ok ib &&
   forall2b (fun ob oa => match ob, oa with OLab _, OLab _ => true | OLab _, _ => false | _, OLab _ => false | _, _ => operand_eqb ob oa end)
            (i_args ib) (i_args ia).
 
@@ -241,7 +243,7 @@ Fixpoint same_block (al : list N) (fb ga : list inst) : bool :=
   | [], [] => true
   | ib :: tb, ia :: ta =>
     match tb with
-    | [] => is_nil ta && (if is_jump ib then inst_eqb (ren_inst al ib) ia else inst_eqb ib ia)
+    | [] => is_nil ta && (if is_jump ib then jnz_cond_ok ib && inst_eqb (ren_inst al ib) ia else inst_eqb ib ia)
     | _ => inst_eqb ib ia && same_block al tb ta
     end
   | _, _ => false
